@@ -33,6 +33,10 @@ MUTANTS = [
     ("skchange/anomaly_detectors/mvcapa.py", "collective_betas.sum()", "collective_betas.max()", "run_base_capa", "J3"),
     ("skchange/anomaly_detectors/mvcapa.py", "np.minimum(sparse_penalties, intermediate_penalties)", "np.maximum(sparse_penalties, intermediate_penalties)",
      "combined_mvcapa_penalty<p>", "is_pointwise_min"),
+    ("skchange/anomaly_detectors/mvcapa.py", "saving_order[: argmax + 1]", "saving_order[: argmax]", "find_affected_components", "loop#1:cols"),
+    ("skchange/anomaly_detectors/mvcapa.py", "(-saving_values).argsort()", "saving_values.argsort()", "find_affected_components", "AX_sorted_unique"),
+    ("skchange/anomaly_detectors/mvcapa.py", "point_saving, point_anomalies, point_alpha, point_betas", "point_saving, point_anomalies, sparse_alpha, sparse_betas",
+     "run_mvcapa<dense/dense", "ghost-assert"),
     ("skchange/base/base_interval_scorer.py", "np.any(cuts[:, -1] > n_samples)", "np.any(cuts[:, -1] > n_samples + 1)", "evaluate<L2Cost/optim", "pre["),
 ]
 
@@ -112,6 +116,13 @@ def main(a):
         print(f"  {'ok  ' if hit else 'MISS'}  mutant of {pat}: expected a failed obligation containing '{expect}', got {len(lines)} failed")
         if not hit:
             failures.append(f"mutant {pat}")
+    # native cross-check of the contracts against the real functions (guards against an unsound encoding / vacuous proofs)
+    from runtime import rtcheck
+    res = rtcheck.run("/repo", samples=120, seed=int(os.environ.get("VERIF_SEED", "0")))
+    nf = [r["contract"] for r in res if r["failures"]]
+    ns = [r["contract"] for r in res if not r["accepted"] and not r["skipped"]]
+    print(f"native contract cross-check: {len(res)} contracts, {sum(r['accepted'] for r in res)} inputs, failures={nf}, without sample={ns}")
+    failures += [f"native cross-check {x}" for x in nf + ns]
     if failures:
         print("SELFTEST FAILED:", failures)
         return 1
